@@ -27,6 +27,7 @@ import (
 	"net"
 	"os"
 	"strings"
+	"sync"
 	"syscall"
 	"time"
 
@@ -491,10 +492,110 @@ func (*fconn) SetDeadline(time.Time) error      { return nil }
 func (*fconn) SetReadDeadline(time.Time) error  { return nil }
 func (*fconn) SetWriteDeadline(time.Time) error { return nil }
 
+// pipeEnd is one end of an in-memory duplex connection with unbounded buffers: Write never blocks,
+// Read blocks until the peer has written or the connection is closed (from either end); deadlines
+// are ignored.  The real channel loops of both ends run on such a pair.
+type pipeEnd struct {
+	mu        *sync.Mutex
+	cond      *sync.Cond
+	buf       []byte // written by the peer, not yet read by this end
+	delivered int    // bytes the peer has ever written to this end
+	waiting   bool   // this end's reader is blocked on an empty buffer
+	closed    *bool  // shared by both ends
+	peer      *pipeEnd
+}
+
+func newPipe() (*pipeEnd, *pipeEnd) {
+	var (
+		mu     sync.Mutex
+		closed bool
+		cond   = sync.NewCond(&mu)
+		a      = &pipeEnd{mu: &mu, cond: cond, closed: &closed}
+		b      = &pipeEnd{mu: &mu, cond: cond, closed: &closed}
+	)
+	a.peer, b.peer = b, a
+	return a, b
+}
+func (e *pipeEnd) Read(b []byte) (int, error) {
+	e.mu.Lock()
+	defer e.mu.Unlock()
+	for len(e.buf) == 0 && !*e.closed {
+		e.waiting = true
+		e.cond.Broadcast()
+		e.cond.Wait()
+	}
+	e.waiting = false
+	if len(e.buf) == 0 {
+		return 0, net.ErrClosed
+	}
+	n := copy(b, e.buf)
+	e.buf = e.buf[n:]
+	return n, nil
+}
+func (e *pipeEnd) Write(b []byte) (int, error) {
+	e.mu.Lock()
+	defer e.mu.Unlock()
+	if *e.closed {
+		return 0, net.ErrClosed
+	}
+	e.peer.buf = append(e.peer.buf, b...)
+	e.peer.delivered += len(b)
+	e.cond.Broadcast()
+	return len(b), nil
+}
+func (e *pipeEnd) Close() error {
+	e.mu.Lock()
+	*e.closed = true
+	e.cond.Broadcast()
+	e.mu.Unlock()
+	return nil
+}
+func (*pipeEnd) LocalAddr() net.Addr              { return addr{} }
+func (*pipeEnd) RemoteAddr() net.Addr             { return addr{} }
+func (*pipeEnd) SetDeadline(time.Time) error      { return nil }
+func (*pipeEnd) SetReadDeadline(time.Time) error  { return nil }
+func (*pipeEnd) SetWriteDeadline(time.Time) error { return nil }
+
+// deliveredTo is the number of bytes ever written to this end.
+func (e *pipeEnd) deliveredTo() int {
+	e.mu.Lock()
+	defer e.mu.Unlock()
+	return e.delivered
+}
+
+// consumed reports that more than prev bytes were written to this end, all of them were read, and
+// the reader is back in Read waiting for more: whatever was sent has been processed by the loop.
+func (e *pipeEnd) consumed(prev int) bool {
+	e.mu.Lock()
+	defer e.mu.Unlock()
+	return e.delivered > prev && len(e.buf) == 0 && e.waiting
+}
+
+// waitFor polls cond for at most d.
+func waitFor(d time.Duration, cond func() bool) bool {
+	t := time.Now().Add(d)
+	for i := 0; ; i++ {
+		if cond() {
+			return true
+		}
+		if time.Now().After(t) {
+			return false
+		}
+		if i < 200 {
+			time.Sleep(20 * time.Microsecond)
+		} else {
+			time.Sleep(500 * time.Microsecond)
+		}
+	}
+}
+
 // prof is the Profile of the client Session: its Connect hands the connections of the harness,
 // one per exchange, to the REAL (*Session).listen loop; once the harness is done it only fails, and
 // listen() leaves through its "too many errors" exit.
-type prof struct{ conns chan net.Conn }
+type prof struct {
+	conns chan net.Conn
+	asked chan struct{} // one token each time listen() comes round and asks for the next connection
+}
 
 func (prof) Jitter() int8                               { return 0 }
 func (prof) Switch(bool) bool                           { return false }
@@ -504,6 +605,10 @@ func (prof) KillDate() (time.Time, bool)                { return time.Time{}, fa
 func (prof) TrustedKey(data.PublicKey) bool             { return true }
 func (prof) Next() (string, cfg.Wrapper, cfg.Transform) { return "", nil, nil }
 func (p prof) Connect(context.Context, string) (net.Conn, error) {
+	select {
+	case p.asked <- struct{}{}:
+	default:
+	}
 	c, ok := <-p.conns
 	if !ok {
 		return nil, errFault
@@ -560,7 +665,9 @@ type world struct {
 	loop        *c2.VerifC06Loop // the running (*Session).listen goroutine of w.cli
 	consecFail  int              // consecutive exchanges session() reported failed (listen() gives up after 6)
 	sinceLoss   int              // completed exchanges since the history entered its finding shape
-	cc          *c2.VerifC06Conn // the server connection of the open channel (nil = no channel)
+	ce, se      *pipeEnd         // the connection of the open channel: client end, server end (nil = no channel)
+	srvDone     chan struct{}    // closed when the server's handle() of the channel connection has returned
+	ready       bool             // listen() is known to be waiting in Connect
 	chanRekeyed bool             // an idle tick inside a channel drew a re-key
 	oldShare    *data.SharedKeys
 	hist        []round
@@ -611,10 +718,43 @@ func (w *world) failKey(what, kind, key string) {
 	recordFail(what, key, map[string]interface{}{"history": w.hist, "finding_shape": w.taint})
 }
 
+// await waits until the running listen() asks for its next connection (false: it ended or hangs).
+func (w *world) await() bool {
+	select {
+	case <-w.prof.asked:
+		w.ready = true
+		return true
+	case <-w.loop.Done:
+	case <-time.After(20 * time.Second):
+	}
+	return false
+}
+
+// hand gives the connection of the next exchange to the running listen().
+func (w *world) hand(c net.Conn) bool {
+	if !w.ready && !w.await() {
+		return false
+	}
+	w.ready = false
+	select {
+	case w.prof.conns <- c:
+		return true
+	case <-w.loop.Done:
+	case <-time.After(20 * time.Second):
+	}
+	return false
+}
+
 // stopLoop ends the listen() goroutine of the current client Session and waits for it.
 func (w *world) stopLoop() {
 	if w.loop == nil {
 		return
+	}
+	if w.ce != nil {
+		w.channel(round{Kind: "chan-end"})
+		if w.loop == nil {
+			return
+		}
 	}
 	close(w.prof.conns)
 	select {
@@ -622,14 +762,14 @@ func (w *world) stopLoop() {
 	case <-time.After(20 * time.Second):
 		recordFail("listen() did not return after its connector only failed", "harness-listen-stuck", nil)
 	}
-	w.loop, w.prof = nil, nil
+	w.loop, w.prof, w.ready = nil, nil, false
 }
 
 // do executes one round: one exchange, plus a second one when a data Packet stayed queued
 // behind a re-key announcement (next() sends a Packet that carries key material alone).
 func (w *world) do(r round) {
 	isChan := strings.HasPrefix(r.Kind, "chan-")
-	if !isChan && w.cc != nil {
+	if !isChan && w.ce != nil {
 		w.channel(round{Kind: "chan-end"}) // the client is inside channelWrite until the channel ends
 	}
 	if isChan {
@@ -668,90 +808,178 @@ func (w *world) drawRekey(short bool) (*com.Packet, int) {
 	return nil, 0
 }
 
-// channel executes one step of an open channel by driving the bodies of the four channel loops
-// (client channelWrite/channelRead, server conn.channelRead/channelWrite) one Packet at a time, in
-// the order of the source, and appends `(events, observation)` for the model.  The client side goes
-// through the REAL next()/pick() with stateChannel set, so an idle tick is whatever pick() makes of it.
+// channel executes one step of a channel on the REAL loops of both ends.  "chan-start" /
+// "chan-start-rekey": the client wants a channel (stateChannelValue), so the real session() puts
+// FlagChannel on its next Packet - an ordinary one, or the re-key announcement the forced roll drew -;
+// the server's real handle() answers (under the key copy talk() took BEFORE the re-key) and calls the
+// real conn.start; both ends then sit in their channelRead/channelWrite loops on an in-memory duplex
+// connection.  "chan-up"/"chan-down": a Packet is queued on the client / server Session and the loops
+// move it.  "chan-tick": the client is woken with nothing to send (pickWait's keep-alive, whatever
+// pick() makes of it), 200 times.  "chan-end": the connection drops.
 func (w *world) channel(r round) {
-	if w.cli == nil {
+	if w.cli == nil || w.loop == nil {
 		return
 	}
 	ss := c2.VerifC06ServerSession(w.l, w.id)
 	var (
 		ev   []string
 		p, q = toBytes(r.P), toBytes(r.Q)
-		e1   error
+		bad  string
 	)
 	r.Fault, r.Err, r.Forget, r.Short = "", "", 0, false
+	const patience = 10 * time.Second
 	switch r.Kind {
-	case "chan-start":
-		if w.cc != nil || ss == nil || c2.VerifC06QueueLen(w.cli) > 0 || w.taint != "" {
+	case "chan-start", "chan-start-rekey":
+		if w.ce != nil || ss == nil || c2.VerifC06QueueLen(w.cli) > 0 || w.taint != "" {
 			return // (no channel inside a finding shape: its known outcome is stated in terms of exchanges)
 		}
-		cc, err := c2.VerifC06ChanOpen(w.l, ss, w.cli)
-		if err != nil {
-			recordFail("channel: resolve failed: "+err.Error(), "channel-setup", nil)
+		if _, _, _, nx := c2.VerifC06Keys(w.cli); nx != nil {
 			return
 		}
-		w.cc, w.chanRekeyed = cc, false
-		r.P, r.Q = nil, nil
-		ev = append(ev, "ChanStart")
+		if len(q) == 0 {
+			q = []byte("channel-start-reply")
+			r.Q = ints(q)
+		}
+		w.chanRekeyed = false
+		c2.VerifC06ChannelWanted(w.cli, true)
+		var n *com.Packet
+		k := 0
+		if r.Kind == "chan-start-rekey" {
+			n, k = w.drawRekey(false)
+		}
+		if n != nil {
+			p, r.P = nil, nil
+			c2.VerifC06Queue(w.cli, n)
+			ev = append(ev, fmt.Sprintf("RekeySend %d", k))
+		} else {
+			r.Kind = "chan-start"
+			d := &com.Packet{Device: w.id}
+			if len(p) > 0 {
+				d.ID, d.Job = idClientData, uint16(2+rng.Intn(60000))
+				d.Write(p)
+			}
+			c2.VerifC06Queue(w.cli, d)
+			ev = append(ev, "DataSend "+vh.Bytes(p))
+		}
+		e := &com.Packet{ID: idServerData, Device: w.id, Job: uint16(2 + rng.Intn(60000))}
+		e.Write(q)
+		c2.VerifC06Queue(ss, e)
+		w.ce, w.se = newPipe()
+		w.srvDone = make(chan struct{})
+		go func(c net.Conn, done chan struct{}) {
+			defer func() {
+				if x := recover(); x != nil {
+					recordFail("panic in the server's handle()/channel loops: "+fmt.Sprint(x), "history-panic", nil)
+				}
+				close(done)
+			}()
+			c2.VerifC06Handle(w.l, c)
+		}(w.se, w.srvDone)
+		if !w.hand(w.ce) {
+			bad = "listen() did not take the connection that starts the channel"
+			break
+		}
+		// the exchange part is over when the client handler has the reply (keyCheckSync runs before
+		// receive) and conn.start has put the server Session into the channel (after its key line)
+		if !waitFor(patience, func() bool {
+			return w.cm.VerifC06Count() > 0 && c2.VerifC06InChannel(ss) && c2.VerifC06InChannel(w.cli)
+		}) {
+			bad = "the exchange that starts the channel did not complete on both ends"
+		}
+		ev = append(ev, "RekeyRecv "+vh.Bytes(q), "ReplyRecv", "ChanStart")
 	case "chan-end":
-		if w.cc == nil {
+		if w.ce == nil {
 			return
 		}
-		c2.VerifC06ChanClose(w.cc, w.cli)
-		w.cc = nil
-		r.P, r.Q = nil, nil
+		r.P, r.Q, p, q = nil, nil, nil, nil
+		c2.VerifC06ChannelWanted(w.cli, false)
+		w.ce.Close()
+		// the client's channelWrite sits in pick() until its next keep-alive is due: wake it
+		done := false
+		for i := 0; i < 400 && !done; i++ {
+			w.cli.Wake()
+			select {
+			case <-w.prof.asked:
+				w.ready, done = true, true
+			case <-w.loop.Done:
+				i = 400
+			case <-time.After(50 * time.Millisecond):
+			}
+		}
+		if !done {
+			bad = "the client did not leave the channel after its connection was closed"
+		}
+		select {
+		case <-w.srvDone:
+		case <-time.After(patience):
+			bad = "the server's handle() did not return after the channel connection was closed"
+		}
+		w.ce, w.se, w.srvDone = nil, nil, nil
 		ev = append(ev, "ChanEnd")
 	case "chan-up":
-		if w.cc == nil {
+		if w.ce == nil {
 			return
 		}
 		r.Q, q = nil, nil
 		d := &com.Packet{ID: idClientData, Device: w.id, Job: uint16(2 + rng.Intn(60000))}
 		d.Write(p)
+		c0 := w.sm.VerifC06Count()
 		c2.VerifC06Queue(w.cli, d)
-		x := &fconn{}
-		if _, e1 = c2.VerifC06ChanClientWrite(w.cli, x); e1 == nil {
-			e1 = c2.VerifC06ChanServerRead(w.l, w.cc, &fconn{rbuf: x.wbuf, triggered: true})
+		// (the handler's record is the signal: a Packet reaches the connection in several writes, an
+		// empty read buffer alone does not mean that the whole Packet has been processed)
+		if !waitFor(patience, func() bool { return w.sm.VerifC06Count() > c0 }) {
+			bad = "a Packet queued on the client inside a channel was not taken by the server's channel reader"
 		}
 		ev = append(ev, "ChanUp "+vh.Bytes(p))
 	case "chan-down":
-		if w.cc == nil || ss == nil {
+		if w.ce == nil || ss == nil {
 			return
 		}
 		r.P, p = nil, nil
 		d := &com.Packet{ID: idServerData, Device: w.id, Job: uint16(2 + rng.Intn(60000))}
 		d.Write(q)
+		c0 := w.cm.VerifC06Count()
 		c2.VerifC06Queue(ss, d)
-		x := &fconn{}
-		if e1 = c2.VerifC06ChanServerWrite(w.l, w.cc, x); e1 == nil {
-			e1 = c2.VerifC06ChanClientRead(w.cli, &fconn{rbuf: x.wbuf, triggered: true})
+		if !waitFor(patience, func() bool { return w.cm.VerifC06Count() > c0 }) {
+			bad = "a Packet queued on the server inside a channel was not taken by the client's channel reader"
 		}
 		ev = append(ev, "ChanDown "+vh.Bytes(q))
 	case "chan-tick":
-		// the client has nothing to send: up to 1500 idle periods, each one real next()/pick() call
-		// (no re-key must ever come out of it; if one does it is followed through the channel)
-		if w.cc == nil || c2.VerifC06QueueLen(w.cli) > 0 {
+		// the client has nothing to send: 200 idle periods, each one wake of the real pickWait
+		// (no re-key must ever come out of pick() here; if one does it is followed through the channel)
+		if w.ce == nil || c2.VerifC06QueueLen(w.cli) > 0 {
 			return
 		}
 		r.P, r.Q, p, q = nil, nil, nil, nil
+		_, priv0, _, _ := c2.VerifC06Keys(w.cli)
 		k := 0
-		for i := 0; i < 1500 && e1 == nil; i++ {
-			x := &fconn{}
-			var f com.Flag
-			if f, e1 = c2.VerifC06ChanClientWrite(w.cli, x); e1 != nil {
-				break
+		for i := 0; i < 200 && bad == "" && k == 0; i++ {
+			prev := w.se.deliveredTo()
+			got := false
+			for j := 0; j < 100 && !got; j++ {
+				w.cli.Wake() // a stale pickWait of an earlier pick() may swallow a wake: repeat
+				got = waitFor(20*time.Millisecond, func() bool { return w.se.consumed(prev) })
 			}
-			e1 = c2.VerifC06ChanServerRead(w.l, w.cc, &fconn{rbuf: x.wbuf, triggered: true})
-			if f&com.FlagCrypt != 0 {
-				_, cp, _, _ := c2.VerifC06Keys(w.cli)
-				k = w.reg.id(cp)
+			if !got {
+				bad = "a woken client inside a channel did not send its keep-alive"
+			}
+			if _, priv1, _, nx := c2.VerifC06Keys(w.cli); priv1 != priv0 || nx != nil {
+				if nx != nil {
+					priv1 = nx.Private
+				}
+				k = w.reg.id(priv1)
 				w.chanRekeyed = true
-				break
 			}
 		}
+		// let the last keep-alive (header and body are separate writes) be processed completely
+		waitFor(patience, func() bool {
+			a := w.se.deliveredTo()
+			if !w.se.consumed(a - 1) {
+				return false
+			}
+			time.Sleep(2 * time.Millisecond)
+			return w.se.consumed(a-1) && w.se.deliveredTo() == a
+		})
 		if k == 0 {
 			ticksWithoutRekey++
 		}
@@ -772,8 +1000,7 @@ func (w *world) channel(r round) {
 	w.terms = append(w.terms, fmt.Sprintf("(%s, mkObs %s %s %s %s %s %s)", vh.List(ev), vh.Bytes(cshare[:]), vh.B(cnext != nil),
 		vh.B(ss != nil), vh.Bytes(sshare[:]), byteList(cgot), byteList(sgot)))
 	w.classes[r.Kind+"//"] = true
-	// ---- oracle: inside a channel every payload arrives unchanged, no key changes, the connection's
-	// copy is the key of both Sessions
+	// ---- oracle: inside a channel every payload arrives unchanged and no key changes
 	key := w.taint
 	if w.chanRekeyed {
 		key = "rekey-during-channel"
@@ -781,22 +1008,21 @@ func (w *world) channel(r round) {
 		key = "channel:" + r.Kind
 	}
 	desc := map[string]interface{}{"history": w.hist, "finding_shape": w.taint, "rekey_drawn_inside_channel": w.chanRekeyed}
-	if e1 != nil {
-		recordFail("a Packet could not be moved through the channel: "+e1.Error(), key, desc)
+	if bad != "" {
+		recordFail(bad, key, desc)
 	}
-	if r.Kind == "chan-up" && len(p) > 0 && (len(sgot) != 1 || !bytes.Equal(sgot[0], p)) {
-		recordFail("a payload sent by the client inside a channel did not arrive unchanged (the server connection decrypts with conn.keys)", key, desc)
+	starts := r.Kind == "chan-start" || r.Kind == "chan-start-rekey"
+	if (r.Kind == "chan-up" || starts) && len(p) > 0 && (len(sgot) != 1 || !bytes.Equal(sgot[0], p)) {
+		recordFail("a payload sent by the client inside a channel (or on the exchange that starts it) did not arrive unchanged", key, desc)
 	}
-	if r.Kind == "chan-down" && len(q) > 0 && (len(cgot) != 1 || !bytes.Equal(cgot[0], q)) {
-		recordFail("a payload sent by the server inside a channel did not arrive unchanged (the server connection encrypts with conn.keys)", key, desc)
+	if (r.Kind == "chan-down" || starts) && len(q) > 0 && (len(cgot) != 1 || !bytes.Equal(cgot[0], q)) {
+		recordFail("a payload sent by the server inside a channel (or on the exchange that starts it) did not arrive unchanged", key, desc)
 	}
 	if w.chanRekeyed && r.Kind == "chan-tick" {
 		recordFail("an idle tick of a client inside a channel drew a re-key (pick() reached keyNextSync while the channel was open)", key, desc)
 	}
-	if w.cc != nil && ss != nil && w.taint == "" {
-		if cs := w.cc.VerifC06ChanConnShare(); cs != sshare || cs != cshare || cnext != nil {
-			recordFail("inside a channel the connection's key copy, the server Session and the client Session do not hold one and the same key", key, desc)
-		}
+	if ss != nil && w.taint == "" && r.Kind != "chan-end" && (cshare != sshare || cnext != nil) {
+		recordFail("inside a channel (or right after the exchange that starts it) the two Sessions do not hold one and the same key", key, desc)
 	}
 }
 
@@ -934,7 +1160,7 @@ func (w *world) exchange(r round) {
 		}()
 		if ok && pan == "" {
 			// from here on every exchange runs inside the REAL (*Session).listen loop
-			w.prof = &prof{conns: make(chan net.Conn)}
+			w.prof = &prof{conns: make(chan net.Conn), asked: make(chan struct{}, 1)}
 			w.loop = c2.VerifC06Listen(w.cli, w.prof)
 		}
 	} else {
@@ -942,23 +1168,11 @@ func (w *world) exchange(r round) {
 			w.cli = nil
 			return
 		}
-		conn.closed = make(chan struct{})
-		dead := false
-		select {
-		case w.prof.conns <- conn:
-			select {
-			case <-conn.closed: // session() has returned, listen()'s error branch has run, the connection is closed
-			case <-w.loop.Done:
-				dead = true
-			case <-time.After(20 * time.Second):
-				dead = true
-				recordFail("an exchange did not finish within 20 s", "harness-timeout", map[string]interface{}{"history": append(w.hist, r)})
-			}
-		case <-w.loop.Done:
-			dead = true
-		case <-time.After(20 * time.Second):
-			dead = true
-			recordFail("listen() did not ask for a connection within 20 s", "harness-timeout", map[string]interface{}{"history": append(w.hist, r)})
+		dead := !w.hand(conn)
+		if !dead {
+			// the exchange is over when listen() comes round for the next connection: session() has
+			// returned, the error branch has run, the connection is closed
+			dead = !w.await()
 		}
 		pan = w.loop.VerifC06LoopPanic()
 		if dead && pan == "" {
@@ -1231,6 +1445,11 @@ func corpus() {
 	runHistory([]round{c, rd("data", "", "before-channel", "b"), ch("start", "", ""), ch("up", "up-1", ""), ch("down", "", "down-1"), ch("tick", "", ""),
 		ch("up", "up-after-idle-ticks", ""), ch("down", "", "down-after-idle-ticks"), ch("end", "", ""), rd("rekey", "", "", "reply"), rd("data", "", "after-channel", "a"),
 		ch("start", "", ""), ch("tick", "", ""), ch("up", "second-channel", ""), ch("tick", "", ""), ch("down", "", "second-channel-down"), rd("data", "", "channel-ended-by-exchange", "x")}, "hist-channel")
+	// a channel opened BY the exchange that carries the re-key announcement (talk() copies the keys before it
+	// applies the re-key: only conn.start moves the server's channel loops to the new key), twice, with idle ticks
+	runHistory([]round{c, rd("data", "", "before", "b"), ch("start-rekey", "", "reply-on-the-rekey-exchange"), ch("up", "up-under-the-new-key", ""), ch("down", "", "down-under-the-new-key"),
+		ch("tick", "", ""), ch("up", "again", ""), ch("end", "", ""), rd("data", "", "after", "a"), ch("start-rekey", "", "second"), ch("down", "", "d2"), ch("up", "u2", ""),
+		rd("rekey", "", "", ""), rd("data", "", "p", "q")}, "hist-channel")
 	// a channel right after a re-key (the connection's copy must be the NEW key), short secret, write failure before it
 	runHistory([]round{c, rd("rekey", "", "", ""), ch("start", "", ""), ch("up", "fresh-key", ""), ch("down", "", "fresh-key-down"), ch("end", "", ""),
 		sr2(), ch("start", "", ""), ch("down", "", "after-short-rekey"), ch("tick", "", ""), ch("up", "after-short-rekey-up", ""), ch("end", "", ""),
@@ -1291,7 +1510,11 @@ func randHistory(maxLen int, faults bool) []round {
 		rs = append(rs, r)
 		if rng.Intn(6) == 0 {
 			// a channel segment
-			rs = append(rs, round{Kind: "chan-start"})
+			if rng.Intn(3) == 0 {
+				rs = append(rs, round{Kind: "chan-start-rekey", Q: randPayload()})
+			} else {
+				rs = append(rs, round{Kind: "chan-start", P: randPayload(), Q: randPayload()})
+			}
 			for j := 1 + rng.Intn(5); j > 0; j-- {
 				switch rng.Intn(5) {
 				case 0:
@@ -1371,6 +1594,78 @@ func genPick(reps int) {
 	w.stopLoop()
 }
 
+// ---------------------------------------------------------------- 6. a fresh Server, keys NOT pre-filled
+
+// genFreshServer: a REAL c2.Server whose Keys are left empty, a real Listener on TCP loopback, and a
+// client that says hello the moment Listen returns (the registration handshake of the bare client
+// Session over a real connection).  Nothing fills Server.Keys but the server itself; both ends'
+// shares are compared with each other and, through a CHist case, with the model fed the server key
+// the Server ended up with.
+func genFreshServer(n int) {
+	bad := 0
+	for it := 0; it < n; it++ {
+		srv := c2.NewServer(nil)
+		l, err := srv.Listen("c06", "127.0.0.1:0", cfg.Static{L: com.TCP})
+		if err != nil {
+			recordFail("fresh server: Listen failed: "+err.Error(), "fresh-server-setup", nil)
+			return
+		}
+		id := newID()
+		cli := c2.VerifC06Client(id, new(c2.VerifC06Mux))
+		var herr error
+		conn, err := net.DialTimeout("tcp", l.Address(), 5*time.Second)
+		if err == nil {
+			conn.SetDeadline(time.Now().Add(10 * time.Second))
+			herr = c2.VerifC06Hello(cli, conn)
+			conn.Close()
+		} else {
+			herr = err
+		}
+		var (
+			ss     *c2.Session
+			sshare data.SharedKeys
+		)
+		for k := 0; k < 2000 && ss == nil; k++ {
+			if ss = srv.Session(id); ss == nil && herr == nil {
+				time.Sleep(time.Millisecond)
+			} else if herr != nil {
+				break
+			}
+		}
+		_, cpriv, cshare, _ := c2.VerifC06Keys(cli)
+		if ss != nil {
+			_, _, sshare, _ = c2.VerifC06Keys(ss)
+		}
+		skeys := srv.Keys
+		d := make(chan struct{})
+		go func() { srv.Close(); close(d) }()
+		select {
+		case <-d:
+		case <-time.After(5 * time.Second):
+		}
+		desc := map[string]interface{}{"scenario": "fresh c2.Server (Keys not set by the caller); Listen; the client says hello at once", "iteration": it,
+			"hello_error": fmt.Sprint(herr), "registered": ss != nil, "client_share": ints(cshare[:]), "server_share": ints(sshare[:]), "server_private_at_the_end": ints(skeys.Private[:])}
+		out.Count("fresh-server", fmt.Sprint(it), true)
+		if herr != nil || ss == nil || cshare != sshare || !ss.VerifC06Synced() {
+			bad++
+			recordFail("right after the registration handshake with a fresh Server the two ends do not hold the same shared secret (the hello was handled before the Server had generated its key pair)",
+				"handshake-server-keys-not-ready", desc)
+			continue
+		}
+		// the model on the same handshake
+		reg := &keyReg{idx: map[data.PrivateKey]int{}}
+		si, ci := reg.id(skeys.Private), reg.id(cpriv)
+		x, e1 := ecdhBytes(cpriv, skeys.Public)
+		if e1 != nil {
+			continue
+		}
+		term := fmt.Sprintf("CHist [(%d,%d,%s)] 0 %d [([Hello %d; RekeyRecv []; HelloReply], mkObs %s false true %s [] [])]", si, ci, vh.Bytes(x), si, ci, vh.Bytes(cshare[:]), vh.Bytes(sshare[:]))
+		out.Add(term, "hist-fresh-server", true, desc)
+	}
+	out.Extra("fresh_server_handshakes", n)
+	out.Extra("fresh_server_handshakes_disagreeing", bad)
+}
+
 func main() {
 	fl := vh.ParseFlags()
 	out = vh.NewOut("C06", fl, "From XMT Require Import Base.Prelude Model.Keys.", "case", "check",
@@ -1383,10 +1678,11 @@ func main() {
 	out.ShardSize = 40
 	rng = vh.NewRand(fl.Seed)
 	thorough := fl.Tier == "thorough"
-	np := 2
+	np, nf := 2, 40
 	if thorough {
-		np = 20
+		np, nf = 20, 300
 	}
+	genFreshServer(nf)
 	genPick(np)
 	t0 := time.Now()
 	genHistories(thorough)
